@@ -86,7 +86,7 @@ func TestVerifC12(t *testing.T) {
 			R.Mark(id)
 			c12Off(R, rand.New(rand.NewSource(rng.Int63())), id)
 		}
-		id = fmt.Sprintf("remote/r%d", r)
+		id = fmt.Sprintf("remote/r%d%s", r, strings.Repeat("x", r%2))
 		if R.Want(id) {
 			R.Mark(id)
 			c12Remote(R, rand.New(rand.NewSource(rng.Int63())), id)
@@ -314,8 +314,16 @@ func c12Remote(R *vr.Result, rng *rand.Rand, id string) {
 	var posts []map[string]any
 	var outage int32
 	msrv := httptest.NewServer(http.HandlerFunc(func(w http.ResponseWriter, r *http.Request) {
-		if atomic.LoadInt32(&outage) == 1 {
+		if o := atomic.LoadInt32(&outage); o != 0 {
 			atomic.AddInt32(&outageHits, 1)
+			if o == 2 { // transport-level failure: drop the connection without an answer
+				if hj, ok := w.(http.Hijacker); ok {
+					if c, _, err := hj.Hijack(); err == nil {
+						c.Close() //nolint:errcheck
+						return
+					}
+				}
+			}
 			http.Error(w, "master unavailable", http.StatusServiceUnavailable)
 			return
 		}
@@ -353,7 +361,7 @@ func c12Remote(R *vr.Result, rng *rand.Rand, id string) {
 	}
 	sbefore := ref.TakeSnap(slave.Base)
 	atomic.StoreInt32(&outageHits, 0)
-	atomic.StoreInt32(&outage, 1)
+	atomic.StoreInt32(&outage, 1+int32(len(id))%2) // 503 answers in some rounds, dropped connections in others
 	for _, ou := range outUsers {
 		fr.login("iface", ou.Name, ou.Pw)
 		time.Sleep(3 * time.Millisecond)
